@@ -82,14 +82,28 @@ func guestModule(s shape) []byte {
 	// f(x) = x + tag, where the tag is (re)loaded from a PASSIVE data segment with memory.init on every call and
 	// one table slot is (re)initialised from a passive element segment: resources that belong to the instance
 	// and must stay usable for as long as something can still call f (also after the instance was closed).
-	m.MemorySection = &wasm.Memory{Min: 1, Max: 1, IsMaxEncoded: true}
+	// The memory: a module that imports `f` from another instance also imports that instance's memory (and
+	// re-exports it), so that a chain of importers shares ONE memory with its (possibly closed) owner.  f leaves
+	// its argument's low byte at address 200, and an importer's callimp grows the memory by a page, calls f and
+	// checks - through its OWN view of the memory - that the byte arrived: state about the memory that an engine
+	// caches per instance (base, length) must stay coherent for as long as the instance's code can run.
+	memT := &wasm.Memory{Min: 1, Max: 8, IsMaxEncoded: true}
+	if s.Imp >= 0 {
+		m.ImportSection = append(m.ImportSection, wasm.Import{Type: wasm.ExternTypeMemory, Module: modName(s.Imp), Name: "mem", DescMem: memT})
+		m.ImportMemoryCount = 1
+	} else {
+		m.MemorySection = memT
+	}
+	m.ExportSection = append(m.ExportSection, wasm.Export{Name: "mem", Type: wasm.ExternTypeMemory, Index: 0})
+	slot := int32(16 + 8*s.Idx)
 	tb := make([]byte, 4)
 	binary.LittleEndian.PutUint32(tb, uint32(tag(s.Idx)))
 	m.DataSection = []wasm.DataSegment{{Passive: true, Init: tb}}
 	add("f", 0, cat(
-		i32const(16), i32const(0), i32const(4), []byte{wasm.OpcodeMiscPrefix, wasm.OpcodeMiscMemoryInit}, u32(0), []byte{0},
+		i32const(slot), i32const(0), i32const(4), []byte{wasm.OpcodeMiscPrefix, wasm.OpcodeMiscMemoryInit}, u32(0), []byte{0},
 		i32const(tabSize), i32const(0), i32const(1), []byte{wasm.OpcodeMiscPrefix, wasm.OpcodeMiscTableInit}, u32(0), u32(0),
-		localGet(0), i32const(16), []byte{wasm.OpcodeI32Load, 2, 0}, []byte{wasm.OpcodeI32Add}))
+		i32const(200), localGet(0), []byte{wasm.OpcodeI32Store8, 0, 0},
+		localGet(0), i32const(slot), []byte{wasm.OpcodeI32Load, 2, 0}, []byte{wasm.OpcodeI32Add}))
 	add("getf", 1, cat([]byte{wasm.OpcodeRefFunc}, u32(fF)))
 	if s.Imp >= 0 {
 		add("getimp", 1, cat([]byte{wasm.OpcodeRefFunc}, u32(0)))
@@ -100,7 +114,11 @@ func guestModule(s shape) []byte {
 	add("load", 3, cat(localGet(0), []byte{wasm.OpcodeTableGet}, u32(0)))
 	add("callit", 4, cat(localGet(1), localGet(0), []byte{wasm.OpcodeCallIndirect}, u32(0), u32(0)))
 	if s.Imp >= 0 {
-		add("callimp", 0, cat(localGet(0), []byte{wasm.OpcodeCall}, u32(0)))
+		add("callimp", 0, cat(
+			i32const(1), []byte{wasm.OpcodeMemoryGrow, 0, wasm.OpcodeDrop},
+			localGet(0), []byte{wasm.OpcodeCall}, u32(0),
+			i32const(200), []byte{wasm.OpcodeI32Load8U, 0, 0}, localGet(0), i32const(255), []byte{wasm.OpcodeI32And, wasm.OpcodeI32Ne},
+			[]byte{wasm.OpcodeIf, 0x40, wasm.OpcodeUnreachable, wasm.OpcodeEnd}))
 	} else {
 		add("callimp", 0, []byte{wasm.OpcodeUnreachable})
 	}
